@@ -93,7 +93,7 @@ def run_login(w, sc, mon):
                  "server %s a presentation that the model %s: kind=%s pos=%s cseed=%#x sseed=%#x" % (
                      "ACCEPTED" if r.ok else "refused", "accepts" if accept else "rejects", kind, pos, cseed, ss))
         elif not accept:
-            if r.b("client_proof") != pres or r.b("server_proof") != exp:
+            if {r.b("client_proof"), r.b("server_proof")} != {pres, exp}:
                 viol("error_payload:" + kind, "error carries client_proof=%s server_proof=%s; expected presented=%s computed=%s" % (
                     r.f.get("client_proof"), r.f.get("server_proof"), pres.hex(), exp.hex()))
         mon.count("expected_accept" if accept else "expected_reject")
